@@ -6,7 +6,10 @@ from vf.monitors import algos
 
 PROP = "C05"
 TECHNIQUE = ('runtime monitoring of the exact configurations (PuLP; CPLEX classes through a generic 0-1 ILP stand-in that records the model) against a 3^n subset-DP oracle with all minimisers; exhaustive model monitor for n<=4')
-RULE = ("cases = dataset (D2-D4, D7, D9, D10: non-trivial components, sparse rankings; n<=7 quick, <=9 thorough) x "
+RULE = ("cases = dataset (D2-D4, D7, D9, D10: non-trivial components, sparse rankings; n<=7 quick, <=9 thorough; 6-7 % of "
+        "the cases: 11-16 (thorough: -30) elements in ordered blocks, judged by the composite oracle ref.BlockOptimum = "
+        "cross-block 'before' costs + per-block DP optima, applied only when the cost table shows 'before' to be a "
+        "cheapest placement of every cross pair) x "
         "scheme (S1-S3,S6) x exact configuration {CPLEX absent: selector optimize on/off, PuLP model; stand-in CPLEX "
         "(mode D): CPLEX model optimize on/off, paper-optim1 model, selector; one / all optimal rankings}; oracle = 3^n "
         "subset dynamic programme with reconstruction of all minimisers; non-trivial = an ILP was built on >= 3 elements "
@@ -42,11 +45,28 @@ def gen_case(rng, ctx):
     nmax = (9 if rng.random() < 0.15 else 7) if thorough else (7 if rng.random() < 0.3 else 6)
     if "D" in ctx.mode:
         nmax = min(nmax, 7 if thorough else 6)
+    if rng.random() < 0.1:
+        # components that some voters tie, some order and some miss entirely, under schemes whose two penalties for a pair
+        # of unranked elements differ: the per-component models must keep counting the voters that miss the component
+        cls, ds = gen.dataset(rng, cls="D23", n=rng.choice([4, 5, 6, 7]), mmax=6)
+        ds = libx.normalise_raw(ds)
+        return {"ds": ds, "scheme": gen.scheme(rng, "S15 S15 S15 S13")[1], "dcls": cls, "scls": "S15"}
     if rng.random() < 0.25:
         # critical band: small pure cycles under a scheme whose tie cost sits around 1/3 .. 1/2 .. 1 of the inversion cost
         cls, ds = gen.dataset(rng, classes="D9 D9 D11", n=rng.choice([3, 3, 4, 5, 6]), mmax=6)
         ds = libx.normalise_raw(ds)
         return {"ds": ds, "scheme": gen.scheme_ratio_band(rng), "dcls": cls, "scls": "S11"}
+    if rng.random() < (0.07 if thorough else 0.06):
+        # beyond the subset DP: 11-30 elements in ordered blocks of 1-5 (ids >= 10 inside the components, many components,
+        # large models); the oracle is the composite one of ref.BlockOptimum, which decides on the cost table whether the
+        # decomposition argument applies
+        n = rng.choice([11, 12, 13, 14, 16, 18, 20, 24, 30] if thorough else [11, 12, 12, 13, 14, 16])
+        ds, blocks = gen.block_dataset(rng, n)
+        ei = ref.expected_type_is_int(ds)
+        ds = libx.normalise_raw(ds)
+        blocks = [[libx.lib_value(e, ei) for e in b] for b in blocks]
+        scls, sch = gen.scheme(rng, "S1 S1 S2 S3 S3 S6 S11")
+        return {"ds": ds, "scheme": sch, "dcls": "blocks", "scls": scls, "blocks": blocks, "pick": rng.randrange(10 ** 6)}
     if rng.random() < 0.07 and "D" not in ctx.mode:
         # nine or ten elements in blocks of 3-4 with cyclic majorities: internal ids >= 8 sit inside a non-trivial component
         cls, ds = gen.dataset(rng, cls="D11", n=rng.choice([9, 9, 10]), m=rng.choice([3, 3, 5, 6]), mmax=6)
@@ -116,7 +136,26 @@ def check_case(case, ctx):
         ren = dict(zip(elems, elems[1:] + elems[:1]))
         ds2 = [[[ren[e] for e in b] for b in reversed(r)] for r in ds]
         ctx.count("same_shape_successors")
-        judge({**case, "successor_of": ds}, ctx, ds2)
+        nxt = {**case, "successor_of": ds}
+        if case.get("blocks"):
+            nxt["blocks"] = [[ren[e] for e in b] for b in reversed(case["blocks"])]
+        judge(nxt, ctx, ds2)
+
+
+class BlockOracle:
+    """adaptor giving ref.BlockOptimum the two things judge() asks of ref.Optimum"""
+
+    def __init__(self, bo):
+        self.bo = bo
+        self.value = bo.value
+
+    def minimisers(self, cap=5000):
+        if not self.bo.strict or self.bo.nb_optima() > 64:
+            return None
+        out = [[]]
+        for dp in self.bo.dps:
+            out = [a + [list(b) for b in r] for a in out for r in dp.minimisers()]
+        return out
 
 
 def judge(case, ctx, ds):
@@ -126,7 +165,19 @@ def judge(case, ctx, ds):
     scheme = libx.mk_scheme(sch)
     elems = ref.universe(ds)
     n = len(elems)
-    dp = ref.optimum_dp(ds, sch, elems)
+    blocks = case.get("blocks")
+    if blocks:
+        bo = ref.BlockOptimum(ds, sch, blocks)
+        if not bo.ok:
+            ctx.count("blocks_not_decomposable")
+            return
+        ctx.count("blocks_judged")
+        ctx.count("blocks_strict" if bo.strict else "blocks_not_strict")
+        if sum(1 for b in blocks if len(b) >= 3) >= 2:
+            ctx.count("blocks_two_components_ge3")
+        dp = BlockOracle(bo)
+    else:
+        dp = ref.optimum_dp(ds, sch, elems)
     best = dp.value
     minimisers = None
     trivial_opt = ref.kemeny([list(elems)], ds, sch) == best or any(
@@ -134,7 +185,17 @@ def judge(case, ctx, ds):
     ctx.count("class:" + case.get("dcls", "?"))
     mode_d = "D" in ctx.mode
     runs = []
-    if mode_d:
+    if blocks:
+        # large models: two or three configurations per case instead of all
+        import random
+        pick = random.Random(case.get("pick", 0))
+        if mode_d:
+            runs = [("Cplex", True), ("CplexOptim1", True), (pick.choice(["CplexNoOpt", "Exact", "ExactNoOpt"]), True)]
+            if n <= 14 and dp.minimisers() is not None:
+                runs.append(("CplexNoOpt", False))
+        else:
+            runs = [(c, True) for c in pick.sample(A_CONFIGS, 2)]
+    elif mode_d:
         for cfg in D_CONFIGS:
             runs.append((cfg, True))
         runs.append(("CplexNoOpt", False))
@@ -229,7 +290,9 @@ def reach(counters, tier, info):
                             ("no-tie optimisation applied (stand-in saw t==0 rows)", "notie_applied", 20 * k),
                             ("no-tie optimisation not applicable", "notie_not_applied", 20 * k),
                             ("non-optimised models checked exhaustively (n<=4)", "models_checked", 10 * k),
-                            ("same-shape successor datasets solved by the same objects", "same_shape_successors", 150 * k)]:
+                            ("same-shape successor datasets solved by the same objects", "same_shape_successors", 150 * k),
+                            ("datasets of 11+ elements judged by the composite block oracle", "blocks_judged", 30 * k),
+                            ("... of which with two or more components of 3+ elements", "blocks_two_components_ge3", 15 * k)]:
         v = counters.get(key, 0)
         out.append({"name": name, "observed": v, "required": need, "ok": v >= need})
     for cfg in ["Pulp", "Exact", "ExactNoOpt", "Cplex", "CplexNoOpt", "CplexOptim1", "CplexNoOpt:all"]:
